@@ -40,6 +40,16 @@ func Gen(r *hx.Rand, cfg Config, mainLen int) *Scenario {
 		// a side branch from a recent main block
 		if r.Chance(1, 7) && len(mainIdx) > 1 {
 			back := r.Range(1, min(6, len(mainIdx)-1))
+			if r.Bool() {
+				// prefer a side block that closes an epoch below the current tip (its CommitBlock writes a quality
+				// record for a block that is neither best nor the highest)
+				for bk := 2; bk <= min(2*int(cfg.L), len(mainIdx)-1); bk++ {
+					if num := uint32(len(mainIdx) - bk + 1); num%cfg.L == cfg.L-1 {
+						back = bk
+						break
+					}
+				}
+			}
 			from := mainIdx[len(mainIdx)-1-back]
 			ft := from
 			for l := 1 + r.Intn(3)/2; l > 0; l-- {
